@@ -369,7 +369,7 @@ def count_at(h: Distogram, value: float):  # pragma: no cover
     if len(h.bins) == 0:
         return None
 
-    if value < h.min or value > h.max:
+    if not (h.min <= value <= h.max):  # also a point that is not a number: every comparison with NaN is false
         return None
 
     if value == h.min:
